@@ -199,14 +199,14 @@ def cut_images(ctx, cuts):
 
 
 # ---------------------------------------------------------------- judging one cut (worker)
-_WORKDIR = None
+_WORKDIR = {}
 
 
 def _workdir():
-    global _WORKDIR
-    if _WORKDIR is None or not os.path.exists(_WORKDIR):
-        _WORKDIR = tempfile.mkdtemp(prefix='w%d-' % os.getpid(), dir=CTX.tmp)
-    return _WORKDIR
+    pid = os.getpid()
+    if pid not in _WORKDIR or not os.path.exists(_WORKDIR[pid]):
+        _WORKDIR[pid] = tempfile.mkdtemp(prefix='w%d-' % pid, dir=CTX.tmp)
+    return _WORKDIR[pid]
 
 
 def judge(task):
